@@ -1058,7 +1058,11 @@ def plan(tier):
 def _settings():
     names = list(cssutils.profile.profiles)
     css3 = [n for n in names if n != cssutils.profile.CSS_LEVEL_2]
-    return [None, [cssutils.profile.CSS_LEVEL_2], css3[:2], css3]
+    # 4, 5: the setting of index 1 handed over as a single name / as a tuple (documented forms of the same setting)
+    return [None, [cssutils.profile.CSS_LEVEL_2], css3[:2], css3, cssutils.profile.CSS_LEVEL_2, (cssutils.profile.CSS_LEVEL_2,)]
+
+
+SAME_SETTING = {4: 1, 5: 1}
 
 
 def _verdict(name, value):
@@ -1094,6 +1098,21 @@ def active_case(res, name, value, order, record=True):
                 _REF_REG[i].defaultProfiles = settings[i]
             cssutils.profile = _REF_REG[i]
             refs[i] = _verdict(name, value)
+        for i in set(order):
+            j = SAME_SETTING.get(i)
+            if j is not None:
+                if j not in _REF_REG:
+                    _REF_REG[j] = Profiles(log=cssutils.log)
+                    _REF_REG[j].defaultProfiles = settings[j]
+                cssutils.profile = _REF_REG[j]
+                other = _verdict(name, value)
+                if refs[i] != other:
+                    cssutils.profile = keep
+                    res.evaluations += 1
+                    res.clauses['C13.active'] += 1
+                    res.violation('C13.active', 'verdict-depends-on-how-the-setting-is-written|' + type(settings[i]).__name__, case,
+                                  {'setting': repr(settings[j]), 'verdict': other}, {'setting': repr(settings[i]), 'verdict': refs[i]}, size=len(value))
+                    return False
         # the history: one registry, settings switched in the given order
         cssutils.profile = Profiles(log=cssutils.log)
         got = []
@@ -1122,7 +1141,7 @@ def active_shard(res, name, tier):
     n = len(_settings())
     orders = [(a, b, a) for a in range(n) for b in range(n) if a != b]
     if tier == 'quick':
-        orders = [(0, 1, 0), (1, 0, 1), (1, 3, 1), (3, 1, 3)]
+        orders = [(0, 1, 0), (1, 0, 1), (1, 3, 1), (3, 1, 3), (4, 0, 4), (5, 3, 5)]
     for entry in m:
         cls = entry.get('cls')
         if tier == 'quick' and cls in seen:
